@@ -27,18 +27,21 @@ func (verifClearSealer) Seal(dst, src []byte, _ protocol.PacketNumber, _ []byte)
 func (verifClearSealer) EncryptHeader([]byte, *byte, []byte) {}
 func (verifClearSealer) Overhead() int                      { return 16 }
 
-type verifInitialOnly struct{}
+type verifInitialOnly struct{ handshake bool }
 
-func (verifInitialOnly) GetInitialSealer() (handshake.LongHeaderSealer, error) {
+func (*verifInitialOnly) GetInitialSealer() (handshake.LongHeaderSealer, error) {
 	return verifClearSealer{}, nil
 }
-func (verifInitialOnly) GetHandshakeSealer() (handshake.LongHeaderSealer, error) {
+func (s *verifInitialOnly) GetHandshakeSealer() (handshake.LongHeaderSealer, error) {
+	if s.handshake {
+		return verifClearSealer{}, nil
+	}
 	return nil, handshake.ErrKeysNotYetAvailable
 }
-func (verifInitialOnly) Get0RTTSealer() (handshake.LongHeaderSealer, error) {
+func (*verifInitialOnly) Get0RTTSealer() (handshake.LongHeaderSealer, error) {
 	return nil, handshake.ErrKeysNotYetAvailable
 }
-func (verifInitialOnly) Get1RTTSealer() (handshake.ShortHeaderSealer, error) {
+func (*verifInitialOnly) Get1RTTSealer() (handshake.ShortHeaderSealer, error) {
 	return nil, handshake.ErrKeysNotYetAvailable
 }
 
@@ -57,6 +60,10 @@ type VerifRetxPacket struct {
 	Frames []VerifRange // the CRYPTO frames registered for loss recovery, in order
 	Wire   []byte       // frame payload as serialised (pass-through sealer: in the clear)
 	Size   int          // datagram size
+	// Coalesced: number of QUIC packets in the datagram; Gap: bytes of the datagram that belong to
+	// no packet and lie before the last packet's end (datagram padding between coalesced packets)
+	Coalesced int
+	Gap       int
 }
 
 // VerifRetx drives one connection's Initial packing.
@@ -67,6 +74,8 @@ type VerifRetx struct {
 	v     protocol.Version
 	max   protocol.ByteCount
 	hello []byte
+	keys  *verifInitialOnly
+	hs    *cryptoStream
 }
 
 // NewVerifRetx builds the packer of a client connection whose ClientHello is hello.
@@ -85,10 +94,12 @@ func NewVerifRetx(spec *QUICSpec, hello []byte, maxPacketSize int) *VerifRetx {
 	}
 	q := newRetransmissionQueue()
 	dcid := protocol.ParseConnectionID([]byte{1, 2, 3, 4, 5, 6, 7, 8})
-	pp := newPacketPacker(protocol.ParseConnectionID(nil), func() protocol.ConnectionID { return dcid }, initial, newCryptoStream(),
-		sph, q, verifInitialOnly{}, newFramer(nil), verifNoAcks{}, nil, protocol.PerspectiveClient)
+	keys := &verifInitialOnly{}
+	hs := newCryptoStream()
+	pp := newPacketPacker(protocol.ParseConnectionID(nil), func() protocol.ConnectionID { return dcid }, initial, hs,
+		sph, q, keys, newFramer(nil), verifNoAcks{}, nil, protocol.PerspectiveClient)
 	return &VerifRetx{p: newUPacketPacker(pp, spec), q: q, out: map[int64][]ackhandler.Frame{}, v: protocol.Version1,
-		max: protocol.ByteCount(maxPacketSize), hello: hello}
+		max: protocol.ByteCount(maxPacketSize), hello: hello, keys: keys, hs: hs}
 }
 
 func (r *VerifRetx) convert(cp *coalescedPacket) *VerifRetxPacket {
@@ -99,7 +110,21 @@ func (r *VerifRetx) convert(cp *coalescedPacket) *VerifRetxPacket {
 		return nil
 	}
 	lp := cp.longHdrPackets[0]
-	out := &VerifRetxPacket{PN: int64(lp.header.PacketNumber), Size: len(cp.buffer.Data)}
+	out := &VerifRetxPacket{PN: int64(lp.header.PacketNumber), Size: len(cp.buffer.Data), Coalesced: len(cp.longHdrPackets)}
+	if cp.shortHdrPacket != nil {
+		out.Coalesced++
+	}
+	if out.Coalesced > 1 {
+		// where does the second packet start? scan for it behind the first one
+		sum := 0
+		for _, q := range cp.longHdrPackets {
+			sum += int(q.length)
+		}
+		if cp.shortHdrPacket != nil {
+			sum += int(cp.shortHdrPacket.Length)
+		}
+		out.Gap = len(cp.buffer.Data) - sum
+	}
 	for _, f := range lp.frames {
 		if cf, ok := f.Frame.(*wire.CryptoFrame); ok {
 			out.Frames = append(out.Frames, VerifRange{int64(cf.Offset), int64(len(cf.Data))})
@@ -115,8 +140,16 @@ func (r *VerifRetx) convert(cp *coalescedPacket) *VerifRetxPacket {
 	return out
 }
 
-// Pack is PackCoalescedPacket (probe=false) or PackPTOProbePacket at the Initial level.
-func (r *VerifRetx) Pack(probe bool) (pkt *VerifRetxPacket, err error, panicked any) {
+// GiveHandshakeKeys makes the Handshake sealer available and queues n bytes of Handshake CRYPTO
+// data (the client's Finished would be such data).
+func (r *VerifRetx) GiveHandshakeKeys(n int) {
+	r.keys.handshake = true
+	_, _ = r.hs.Write(make([]byte, n))
+}
+
+// Pack is PackCoalescedPacket (probe=false) or PackPTOProbePacket at the Initial level; ping is
+// the probe's addPingIfEmpty.
+func (r *VerifRetx) Pack(probe, ping bool) (pkt *VerifRetxPacket, err error, panicked any) {
 	defer func() {
 		if p := recover(); p != nil {
 			panicked = p
@@ -124,7 +157,7 @@ func (r *VerifRetx) Pack(probe bool) (pkt *VerifRetxPacket, err error, panicked 
 	}()
 	var cp *coalescedPacket
 	if probe {
-		cp, err = r.p.PackPTOProbePacket(protocol.EncryptionInitial, r.max, false, monotime.Now(), r.v)
+		cp, err = r.p.PackPTOProbePacket(protocol.EncryptionInitial, r.max, ping, monotime.Now(), r.v)
 	} else {
 		cp, err = r.p.PackCoalescedPacket(false, r.max, monotime.Now(), r.v)
 	}
